@@ -85,6 +85,10 @@ CHECKS = {
                 text="for every set of up to two registrations, every request and every activation configuration, exactly the expected callback fires and its verdict/mutation is used; unregistered conditions fall back to the built-in result, unregistered updates fail with the unsupported-feature error and leave the item unchanged; nothing fires when the native interpreter is not active",
                 note="2 tables x 4 kinds x 5 texts (whitespace variants, a character permutation, different texts); quick: pairs of the same kind, thorough: all ordered pairs; 6 configurations; both SDK clients",
                 ref="DESIGN.md 3/C20"),
+    "C11": dict(engine="E3", technique=E3,
+                text="every schedule with at most 1 (thorough: 2) preemptions of every pair of calls of the 19/20-call menu from three initial states, of the named N-thread scenarios and of two-call threads (at most 2 preemptions), on both SDK clients: no deadlock, no panic, lockset race freedom, and an outcome equal to that of some sequential order",
+                note="scheduling points: Lock/Unlock, every access to a Client field or core.Table/index object in the client packages, every statement of core/table.go and core/index.go (inserted at build time through go build -overlay); sequentially consistent interleavings only; 2-3 threads; batch calls are decomposed into their requests for the sequential reference",
+                ref="DESIGN.md 1.7, 3/C11"),
 }
 
 PENDING = {}
